@@ -1,9 +1,10 @@
 CONSTANTS
   MaxA = 3
-  MaxM = 3
-  Statuses = {"run", "timeout"}
-  WithExc = FALSE
+  MaxM = 2
+  Statuses = {"run", "timeout", "unchecked"}
+  WithExc = TRUE
   MaxCount = 5
+  UseCritical = FALSE
   Hazard = "none"
 SPECIFICATION Spec
 INVARIANT TypeOK
